@@ -128,7 +128,6 @@ pub(crate) fn parse_macro_args(
                             match parse_macro_arg(&mut parser) {
                                 Some(arg) => {
                                     args.push(arg);
-                                    parser.bump();
                                     if parser.token == TokenKind::Eof && args.len() == 2 {
                                         vec_with_semi = true;
                                         break;
